@@ -284,7 +284,7 @@ func Run(args []string) {
 			"shortcuts, recursion, self-added type; every ROOT KIND: scalar of each kind, array empty / of scalars / of objects / nested / of references, "+
 			"empty object, type-shortcut roots @t and or-shortcut roots @a | @b resolving to each kind, or-rule roots), their AddRule/AddType set-up interleaved with Check/Validate/Len/Example/GetAST/"+
 			"UsedUserTypes, late AddType/AddRule, "+fmt.Sprint(NDocs())+" documents incl. malformed / trailing bytes (Check/Len/NextLexeme, Check before Validate on one object), 6 enum rules, 6 regex types; type, rule and document "+
-			"objects are shared between schemas of a history; every result is compared with the same operation on fresh objects (same "+
+			"objects are shared between schemas of a history (one history in three is sharing-focused: 2-3 roots with common type / rule specs, common objects nearly always shared, set-up first, fitting documents); every result is compared with the same operation on fresh objects (same "+
 			"AddType/AddRule prefix), every handed-out value (example bytes, AST, error value, used-type slice, enum values, lexeme) is deep-copied at hand-out and re-read after EVERY later call (live and fresh-object) and at the end; whole run repeated in-process and in 3 child processes. "+
 			"Non-trivial = some object is the target of >= 2 non-set-up operations or the argument of >= 2 operations")
 	// diffs are buffered so that unclassified ones are reported first (the
